@@ -32,16 +32,46 @@ pub(crate) fn ty(p: &mut Parser) {
     }
 }
 
+/// Parse a type that makes up the whole input, for [`Parser::parse_type`].
+///
+/// Unlike [`ty`], which callers only use when the next token can start a type, this always
+/// produces exactly one root node, with leading ignored tokens and lexer errors inside it.
+pub(crate) fn standalone_ty(p: &mut Parser) {
+    // Queue leading ignored tokens (and lexer errors): they are attached inside the root node.
+    p.skip_ignored();
+    match parse_impl(p, true) {
+        Ok(_) => (),
+        Err(Some(token)) => p.err_at_token(&token, "expected a type"),
+        Err(None) => p.err("expected a type"),
+    }
+}
+
 /// Returns the type on success, or the TokenKind that caused an error.
 ///
 /// When errors occur deeper inside nested types like lists, this function
 /// pushes errors *inside* the list to the parser, and returns an Ok() with
 /// an incomplete type.
 fn parse<'a>(p: &mut Parser<'a>) -> Result<(), Option<Token<'a>>> {
-    let checkpoint = p.checkpoint_node();
+    parse_impl(p, false)
+}
+
+/// `root`: the type is the root node of the tree, so pending tokens go inside it.
+fn parse_impl<'a>(p: &mut Parser<'a>, root: bool) -> Result<(), Option<Token<'a>>> {
+    let checkpoint = if root {
+        p.checkpoint_root()
+    } else {
+        p.checkpoint_node()
+    };
+    let start_node = |p: &mut Parser<'a>, kind| {
+        if root {
+            p.start_root_node(kind)
+        } else {
+            p.start_node(kind)
+        }
+    };
     match p.peek() {
         Some(T!['[']) => {
-            let _guard = p.start_node(SyntaxKind::LIST_TYPE);
+            let _guard = start_node(p, SyntaxKind::LIST_TYPE);
             p.bump(S!['[']);
 
             if p.recursion_limit.check_and_increment() {
@@ -59,12 +89,25 @@ fn parse<'a>(p: &mut Parser<'a>) -> Result<(), Option<Token<'a>>> {
             p.expect(T![']'], S![']']);
         }
         Some(TokenKind::Name) => {
-            let _guard = p.start_node(SyntaxKind::NAMED_TYPE);
+            let _guard = start_node(p, SyntaxKind::NAMED_TYPE);
             let _name_node_guard = p.start_node(SyntaxKind::NAME);
 
             let token = p.pop();
             name::validate_name(token.data(), p);
             p.push_token(SyntaxKind::IDENT, token);
+        }
+        Some(_) if root => {
+            // There is no type, but the tree still needs a root node.
+            let _guard = p.start_root_node(SyntaxKind::NAMED_TYPE);
+            let token = p.pop();
+            if token.kind() != TokenKind::Eof {
+                p.push_token(SyntaxKind::ERROR, token.clone());
+            }
+            return Err(Some(token));
+        }
+        None if root => {
+            let _guard = p.start_root_node(SyntaxKind::NAMED_TYPE);
+            return Err(None);
         }
         Some(_) => return Err(Some(p.pop())),
         None => return Err(None),
